@@ -5,6 +5,7 @@ CONSTANTS
   PlateNames <- PN
   VarSize = 2
   PlateSize = 2
+  Scales = {1}
   MaxFactors = 2
   Plus = "min"
   Times = "add"
